@@ -99,3 +99,7 @@ Proof.
 Qed.
 Example lookup_example : get_header (mkR [] [] [] [mkH [72;111;115;116] [49]; mkH [104;79;83;84] [50]] []) [104;111;115;116] = Some (mkH [72;111;115;116] [49]).
 Proof. reflexivity. Qed.
+
+(* finding C14-F1: a request line without a target is accepted with the empty target *)
+Lemma empty_target_witness : parse_request_line [71;69;84;32;32;72;84;84;80;47;49;46;49;13;10] = Some ([71;69;84], [], [72;84;84;80;47;49;46;49]).
+Proof. vm_compute. reflexivity. Qed.
